@@ -19,7 +19,7 @@ MENU = ["energy2", "amp2ph", "amp2pphh", "ovl2", "m1phph", "t2_2", "psi1",
         "m1phph_nosub", "m1phph_kcld", "m0phph", "m0phph_nosub", "ovlisr2",
         "tm1ph", "tm1ph_nosub", "ex1phph", "ex0phph", "ex0phph_nosub",
         "ex0phph_2p", "t2_2_klcd", "t2_2_once", "energy2_re", "mvp1",
-        "mvp1_nosub"]
+        "mvp1_nosub", "facA", "facB", "facC", "facD"]
 # positions 1..12 are the menu of spec/History.tla
 SPEC_MENU = MENU[:12]
 
@@ -220,6 +220,11 @@ def run(chk):
              ["t2_2_once", "t2_2", "t2_2_klcd"], ["energy2_re", "energy2"],
              ["mvp1_nosub", "mvp1"], ["ex1phph", "tm1ph", "ovlisr2"]]
     sample += pairs if not quick else r.sample(pairs, 4)
+    # registries shared by the whole process: what a request factors must not
+    # depend on the types an earlier request asked for
+    sample += [["facA", "facB"], ["facC", "facB", "facD"]] if quick else \
+        [["facA", "facB"], ["facC", "facB", "facD"], ["facD", "facA", "facB"],
+         ["facB", "facC", "facA", "facD"]]
     seeds = [0, 1] if quick else [0, 1, 2, 12345]
     # reference: each request alone in a fresh process, hash seed 0
     needed = sorted({q for h in sample for q in h
